@@ -101,26 +101,28 @@ theorem finish_trace (w : W) : ∃ es, (finish w).trace = es ++ (exitEv w :: w.t
   simp only []
   obtain ⟨es, he, hq⟩ := foldl_out_trace outEv (fun _ => rfl)
     (((allOuts w).filter (fun e => e.1 ≠ 0)).foldr insertByKey []) (finishHead w)
-  have hh : (finishHead w).trace = [Ev.slots (liveOuts w).length, Ev.refs w.masterRef 0, Ev.hbs (sortStrings (w.hbs.map Oid.name))] ++
+  have hh : (finishHead w).trace = [Ev.slotIdx (occupiedIdx (slots w) 0), Ev.slots (liveOuts w).length, Ev.refs w.masterRef 0, Ev.hbs (sortStrings (w.hbs.map Oid.name))] ++
       (exitEv w :: w.trace) := rfl
   split
-  · refine ⟨consoleOutEv w :: (es ++ [Ev.slots (liveOuts w).length, Ev.refs w.masterRef 0, Ev.hbs (sortStrings (w.hbs.map Oid.name))]), ?_, ?_⟩
+  · refine ⟨consoleOutEv w :: (es ++ [Ev.slotIdx (occupiedIdx (slots w) 0), Ev.slots (liveOuts w).length, Ev.refs w.masterRef 0, Ev.hbs (sortStrings (w.hbs.map Oid.name))]), ?_, ?_⟩
     · show consoleOutEv w :: _ = _
       rw [he, hh]; simp
     · intro e he'
       simp only [List.mem_cons, List.mem_append, List.mem_nil_iff, or_false] at he'
-      rcases he' with h | h | h | h | h
+      rcases he' with h | h | h | h | h | h
       · rw [h]; rfl
       · exact hq e h
       · rw [h]; rfl
       · rw [h]; rfl
       · rw [h]; rfl
-  · refine ⟨es ++ [Ev.slots (liveOuts w).length, Ev.refs w.masterRef 0, Ev.hbs (sortStrings (w.hbs.map Oid.name))], ?_, ?_⟩
+      · rw [h]; rfl
+  · refine ⟨es ++ [Ev.slotIdx (occupiedIdx (slots w) 0), Ev.slots (liveOuts w).length, Ev.refs w.masterRef 0, Ev.hbs (sortStrings (w.hbs.map Oid.name))], ?_, ?_⟩
     · rw [he, hh]; simp
     · intro e he'
       simp only [List.mem_cons, List.mem_append, List.mem_nil_iff, or_false] at he'
-      rcases he' with h | h | h | h
+      rcases he' with h | h | h | h | h
       · exact hq e h
+      · rw [h]; rfl
       · rw [h]; rfl
       · rw [h]; rfl
       · rw [h]; rfl
